@@ -3,14 +3,17 @@ C05 driver: `adv` case lines (go/props/c05) on the member-machine model with the
 message language of `Model/DkgSim.lean` (the trailing field, the Byzantine member's index, only
 tells the Go oracle whom to leave out of the joint outcome), and `hist` case lines – histories of
 several key generations with the same long-term keys, whose recorded messages and oracle answers
-feed every session – on the stage-level model `Model/DkgHist.lean`.
+feed every session – on the stage-level model `Model/DkgHist.lean`, and `libadv` case lines – generators
+driven directly at library level – on `Model/DkgLibSim.lean`.
 -/
 import DosModel.Model.DkgSim
 import DosModel.Model.DkgHist
+import DosModel.Model.DkgLibSim
 
 def main : IO Unit := Dos.lineLoop (fun line =>
   let w := Dos.words line
   match w.head? with
   | some "adv" => Dos.DkgSim.runLine (w.take 5)
   | some "hist" => Dos.DkgHist.runLine (w.take 8)
+  | some "libadv" => Dos.DkgLibSim.runLine (w.take 5)
   | _ => "bad-op")
